@@ -19,7 +19,9 @@ import (
 	"sync"
 	"time"
 
+	"github.com/wundergraph/graphql-go-tools/execution/engine"
 	"github.com/wundergraph/graphql-go-tools/execution/graphql"
+	"github.com/wundergraph/graphql-go-tools/v2/pkg/engine/plan"
 
 	"verif/harness/internal/fedcat"
 	"verif/harness/internal/fedcfg"
@@ -111,7 +113,13 @@ func newEnv(e *fedcat.Entry) (*gatewayEnv, error) {
 	for i := range e.Sgs {
 		srcs[i] = fedcfg.Source{Name: e.Sgs[i].Name, SDL: fedcat.SubgraphSDL(e, i), URL: r.URL(i)}
 	}
-	gw, err := fedcfg.NewGateway(fedcat.SupergraphSDL(e), srcs, r, fedcfg.Options{})
+	opts := fedcfg.Options{}
+	if os.Getenv("C01_PLAN_DEBUG") != "" {
+		opts.Configure = func(c *engine.Configuration) {
+			c.VerifPlannerConfig().Debug = plan.DebugConfiguration{PrintOperationTransformations: true, PrintPlanningPaths: true, PrintNodeSuggestions: true, PrintQueryPlans: true}
+		}
+	}
+	gw, err := fedcfg.NewGateway(fedcat.SupergraphSDL(e), srcs, r, opts)
 	if err != nil {
 		return nil, err
 	}
